@@ -222,10 +222,6 @@ structure Inv (t : Tracker) (K : Kernel) (L : Owner → Option Snapshot) : Prop 
   none : ∀ key, alLookup key t.ips = none → ∀ o, ownBit L key o = none
   kern : ∀ key, alLookup key K = (alLookup key t.ips).map (·.merged)
 
-/-- the owner map after `syncOwner o s`. -/
-def setOwner (L : Owner → Option Snapshot) (o : Owner) (s : Snapshot) : Owner → Option Snapshot :=
-  fun x => if x = o then (if s.effective then some s else none) else L x
-
 /-- the post-state of one address, computed from the pre-state. -/
 def target (t : Tracker) (key : Ip) (o : Owner) (s : Snapshot) : Option IpState :=
   if s.effective && s.ips.contains key then
@@ -557,5 +553,88 @@ theorem Inv_sync {t : Tracker} {K : Kernel} {L : Owner → Option Snapshot} (hI 
 theorem Inv_empty : Inv Tracker.empty [] (fun _ => none) :=
   ⟨fun _ => rfl, fun _ _ h => by simp at h, rfl, fun _ _ h => by simp [Tracker.empty, alLookup] at h,
    fun _ _ _ => rfl, fun _ => rfl⟩
+
+/-! ## consequences of the invariant -/
+
+theorem Inv.kernel_bit {t : Tracker} {K : Kernel} {L : Owner → Option Snapshot} (hI : Inv t K L) (ip : Ip) (i : Nat) :
+    (kernelVal K ip).testBit i = true ↔
+      ∃ o s, L o = some s ∧ ip ∈ s.ips ∧ s.bitmap.testBit i = true := by
+  unfold kernelVal
+  rw [hI.kern ip]
+  cases hst : alLookup ip t.ips with
+  | none =>
+    simp only [Option.map_none, Nat.zero_testBit, Bool.false_eq_true, false_iff]
+    rintro ⟨o, s, hL, hm, _⟩
+    have := hI.none ip hst o
+    unfold ownBit at this
+    rw [hL] at this
+    simp [hm] at this
+  | some st =>
+    obtain ⟨hnd, _, hm, hl⟩ := hI.st ip st hst
+    simp only [Option.map_some, hm, testBit_orAll, List.any_map, List.any_eq_true, Function.comp]
+    constructor
+    · rintro ⟨⟨o, b⟩, hmem, hb⟩
+      have h1 := alLookup_of_mem hnd hmem
+      rw [hl] at h1
+      unfold ownBit at h1
+      cases hL : L o with
+      | none => simp [hL] at h1
+      | some s =>
+        simp [hL] at h1
+        exact ⟨o, s, hL, h1.1, by rw [h1.2]; exact hb⟩
+    · rintro ⟨o, s, hL, hmem, hb⟩
+      have h1 : alLookup o st.owners = some s.bitmap := by
+        rw [hl]; unfold ownBit; rw [hL]; simp [hmem]
+      exact ⟨(o, s.bitmap), mem_of_alLookup h1, hb⟩
+
+theorem ne_zero_of_testBit {b i : Nat} (h : b.testBit i = true) : b ≠ 0 := by
+  intro e; subst e; simp at h
+
+theorem Inv.no_orphan {t : Tracker} {K : Kernel} {L : Owner → Option Snapshot} (hI : Inv t K L) (ip : Ip) (v : Bitmap)
+    (h : alLookup ip K = some v) :
+    v ≠ 0 ∧ ∃ o s, L o = some s ∧ ip ∈ s.ips ∧ s.bitmap ≠ 0 := by
+  rw [hI.kern ip] at h
+  cases hst : alLookup ip t.ips with
+  | none => simp [hst] at h
+  | some st =>
+    simp only [hst, Option.map_some, Option.some.injEq] at h
+    obtain ⟨_, hne, hm, hl⟩ := hI.st ip st hst
+    cases hown : st.owners with
+    | nil => exact absurd hown hne
+    | cons p rest =>
+      obtain ⟨o, b⟩ := p
+      have h1 : alLookup o st.owners = some b := by rw [hown]; simp [alLookup]
+      rw [hl] at h1
+      unfold ownBit at h1
+      cases hL : L o with
+      | none => simp [hL] at h1
+      | some s =>
+        simp [hL] at h1
+        have heff := hI.eff o s hL
+        have hb : s.bitmap ≠ 0 := by
+          unfold Snapshot.effective at heff
+          simp only [Bool.and_eq_true, bne_iff_ne, ne_eq] at heff
+          exact heff.2
+        refine ⟨?_, o, s, hL, h1.1, hb⟩
+        obtain ⟨i, hi⟩ := Nat.exists_testBit_of_ne_zero hb
+        apply ne_zero_of_testBit (i := i)
+        rw [← h, hm, testBit_orAll, hown]
+        simp [← h1.2, hi]
+
+/-- invariant along any history of `syncOwner` calls. -/
+theorem Inv_runSync (h : List (Owner × Snapshot)) : ∀ (s : TK) (L : Owner → Option Snapshot), Inv s.t s.K L →
+    Inv (runSync s h).t (runSync s h).K (liveAfter L h) := by
+  induction h with
+  | nil => intro s L hI; exact hI
+  | cons p h ih =>
+    intro s L hI
+    unfold runSync liveAfter
+    simp only [List.foldl_cons]
+    apply ih
+    unfold TK.sync syncOwner
+    by_cases ho : p.1 = ""
+    · simp only [ho, if_true]; exact hI
+    · simp only [ho, if_false]
+      exact Inv_sync hI p.1 ho p.2
 
 end DaeVerif.C10
